@@ -151,7 +151,7 @@ def earlyName : Early → String
 
 def accept (icount : Int) (cancelAt : Option Nat) (gets : List GetRes) (outs : List (Nat × Outcome))
     (trace : List Tok) (ngets : String) : String :=
-  match prepare fixEmptyKeys icount cancelAt gets with
+  match prepare icount cancelAt gets with
   | .error (e, g) =>
     -- sequential early return: Cleanup once, then the error; nothing else (the harness' own `x` aside)
     let tr := trace.filter (· != .cancel)
